@@ -1388,8 +1388,8 @@ def part_c(ctx):
     n_viol = 0
     import time
     for k in range(ctx.n(120, 2000)):
-        if time.time() - ctx.t0 > (105 if not ctx.thorough else 780):
-            ctx.note(f"C07: wall budget reached after {k} scenarios")
+        if time.process_time() > (105 if not ctx.thorough else 780):   # CPU time, not wall time: load must not decide what is explored
+            ctx.note(f"C07: CPU budget reached after {k} scenarios")
             break
         state = ctx.rng.getstate()
         sc, problems = run_scenario(ctx, k)
